@@ -1009,7 +1009,15 @@ class Interp:
         return [self.eval(x, env) for x in e.elts]
 
     def ex_Set(self, e, env):
-        vals = [self.eval(x, env) for x in e.elts]
+        vals = []
+        for x in e.elts:
+            if isinstance(x, ast.Starred):  # {*a, b}: the elements of a (a concrete collection), then b
+                inner = self.eval(x.value, env)
+                if not isinstance(inner, (set, frozenset, list, tuple)):
+                    raise Unsupported("*x in a set display of a non-concrete collection", e)
+                vals.extend(sorted(inner, key=repr) if isinstance(inner, (set, frozenset)) else inner)
+            else:
+                vals.append(self.eval(x, env))
         if all(is_concrete(v) for v in vals):
             try:
                 return set(vals)
@@ -1811,6 +1819,17 @@ class Interp:
             for _ in range(args[2]):
                 out = z3.Replace(out, a[0], a[1])
             return out
+        if name == "strip" and not a:
+            # str.strip(): an uninterpreted function of the string with the facts that hold for every string (no claim about which characters
+            # count as white space): the result is a substring, the empty string strips to itself, a string without a leading/trailing
+            # space-like ASCII character is its own strip
+            f = z3.Function("py.str.strip", z3.StringSort(), z3.StringSort())
+            r = f(s)
+            ws = z3.Union(*[z3.Re(c) for c in (" ", "\t", "\n", "\r", "\x0b", "\x0c")])
+            self.ctx.assume(z3.Contains(s, r))
+            self.ctx.assume(z3.Implies(s == z3.StringVal(""), r == z3.StringVal("")))
+            self.ctx.assume(z3.Implies(z3.InRe(s, z3.Star(ws)), r == z3.StringVal("")))
+            return r
         if name == "isdigit" and not a:
             # ASCII model (assumption A2)
             return z3.InRe(s, z3.Plus(z3.Range("0", "9")))
